@@ -12,13 +12,15 @@ imported or called.
 from __future__ import annotations
 
 import ast
+import itertools as _itertools_module
+import operator as _operator_module
 import re as _re_module
 import types as _types
 
 from .core import AnalysisError, text
 
 # standard-library modules the evaluated code may use as they are (pure functions on the model's own values)
-SAFE_MODULES = {'re': _re_module}
+SAFE_MODULES = {'re': _re_module, 'operator': _operator_module, 'itertools': _itertools_module}
 
 
 class _Return(Exception):
